@@ -509,7 +509,7 @@ pub fn enumerated_cases(len: usize) -> Vec<Case> {
     out
 }
 
-pub const RULE_ENUM: &str = "[enumerated] small-scope exhaustive: every sequence of N operations (N = 3 quick, 5 thorough) over a reduced alphabet of 15 operations {add 1 chunk, add 2 chunks, migrate, commit first pending (source report), commit last pending (destination report), scale down to 4, delete free nodes, fail over first/middle/last proxy, balance masters, config change, re-register first proxy, stale commit, add proxy} after creating a 4-node cluster on a 3+3+2-proxy layout, for migration_limit 0 and 1; same oracle as the generated histories, evaluated after every step";
+pub const RULE_ENUM: &str = "[enumerated] small-scope exhaustive: every sequence of N operations (N = 3 quick, 4 thorough) over a reduced alphabet of 15 operations {add 1 chunk, add 2 chunks, migrate, commit first pending (source report), commit last pending (destination report), scale down to 4, delete free nodes, fail over first/middle/last proxy, balance masters, config change, re-register first proxy, stale commit, add proxy} after creating a 4-node cluster on a 3+3+2-proxy layout, for migration_limit 0 and 1; same oracle as the generated histories, evaluated after every step";
 
 // ---------------------------------------------------------------------------
 // The simulator
